@@ -421,3 +421,40 @@ Proof.
 Qed.
 
 End CompactProofs.
+
+(* ---------- completeness of FindUpdates: every examined message that is followed by a later examined message with the
+   same key is selected - so among the messages not newer than the cut-off at most one per key remains *)
+Section UpdComplete.
+
+Lemma upd_complete : forall P o, has_later P o -> In o (fst (fold_left upd_g P ([], []))).
+Proof.
+  induction P as [|x P IH] using rev_ind; intros o Hl.
+  - destruct Hl as (pre & m & mid & m' & post & E & _). destruct pre; discriminate.
+  - rewrite fold_left_app. cbn [fold_left]. destruct (upd_sound P) as [Hmap _]. cbv zeta in Hmap.
+    set (r := fold_left upd_g P ([], [])) in *.
+    destruct Hl as (pre & m & mid & m' & post & E & Hm & Hk & Hmid).
+    (* is the later message x itself, or does it lie in P? *)
+    destruct (exists_last_or_nil post) as [->|(post' & y & ->)].
+    + (* m' is the last element: m' = x, P = pre ++ m :: mid *)
+      assert (EP : P = pre ++ m :: mid /\ x = m').
+      { replace (pre ++ m :: mid ++ [m']) with ((pre ++ m :: mid) ++ [m']) in E by (rewrite <- app_assoc; reflexivity).
+        apply app_inj_tail in E. tauto. }
+      destruct EP as [-> ->]. unfold upd_g.
+      assert (Hlast : last_opt (filter (has_key (mkey m')) (pre ++ m :: mid)) = Some m).
+      { assert (Hhead : has_key (mkey m') m = true) by (unfold has_key; rewrite Hk; apply ConsumeProofs.bytes_eqb_refl).
+        assert (Hnil : filter (has_key (mkey m')) mid = []).
+        { apply filter_all_false. intros z Hz. unfold has_key. destruct (bytes_eqb (mkey m') (mkey z)) eqn:Eb; [|reflexivity].
+          apply bytes_eqb_eq in Eb. exfalso. apply (Hmid z Hz). congruence. }
+        rewrite filter_app. cbn [filter]. rewrite Hhead, Hnil. apply last_opt_app. }
+      rewrite Hmap, Hlast. cbn [option_map fst]. apply in_or_app. right. left. exact Hm.
+    + (* the later message lies in P *)
+      assert (EP : P = pre ++ m :: mid ++ m' :: post' /\ x = y).
+      { replace (pre ++ m :: mid ++ m' :: post' ++ [y]) with ((pre ++ m :: mid ++ m' :: post') ++ [y]) in E
+          by (rewrite <- !app_assoc; cbn [app]; rewrite <- app_assoc; reflexivity).
+        apply app_inj_tail in E. tauto. }
+      destruct EP as [EP ->].
+      assert (Hin : In o (fst r)) by (apply IH; exists pre, m, mid, m', post'; repeat split; assumption).
+      unfold upd_g. destruct (assoc_find (mkey y) (snd r)); cbn [fst]; [apply in_or_app; now left|exact Hin].
+Qed.
+
+End UpdComplete.
